@@ -594,6 +594,19 @@ SeriesOf(c) ==
                  Ser("VWAP", nm, TRUE, rv, k, c.p, Ref(""), Zero, h)>>
        [] OTHER -> <<>>
 
+\* number of earlier candles the indicator can need for one reading (its warm-up length);
+\* C15's second clause is only claimed while that many predecessors survive the trim
+Warm(c) ==
+  LET k == c.kind
+  IN CASE k \in {"SMA", "STDEV", "BBANDS", "ROC", "HL", "AROON", "STDEVTHRES"} -> c.p + 1
+       [] k \in {"EMA", "RMA", "WMA", "VWMA", "DONCHIAN", "ATR", "KC", "Supertrend", "RSI"} -> c.p + 1
+       [] k = "HMA" -> c.p + ISqrt(c.p) + 1
+       [] k = "MACD" -> c.p2 + c.p3 + 1
+       [] k = "STOCH" -> c.p + c.p2 + c.p3 + 1
+       [] k = "TSI" -> c.p + c.p2 + 1
+       [] k = "ADX" -> c.p + c.p2 + 1
+       [] OTHER -> 2
+
 \* every name the indicator writes (purge must remove exactly these)
 OwnedNames(c) == LET ss == SeriesOf(c) IN {ss[j].name : j \in 1..Len(ss)}
 
